@@ -43,7 +43,7 @@ def generate(rng, tier):
                                                                           365 * 86400_000_000])})
         else:
             steps.append({'id': sid, 'op': 'ref_sign', 'keykind': rng.choice(['ed25519', 'ed25519', 'p256', 'p384', 'p521', 'secp256k1',
-                                                                                'rsa2048', 'dsa2048']),
+                                                                                'rsa2048', 'dsa2048', 'rsa2050']),
                           'kind': rng.choice(['doc', 'text', 'none', 'uid', 'key', 'keyrev', 'fullkey']),
                           'halg': rng.choice([8, 8, 10, 9, 11, 2, 1]),
                           'data': bytes(rng.randrange(256) for _ in range(rng.choice([0, 1, 33, 500]))).hex(),
